@@ -15,12 +15,12 @@ RULE = ("behaviours = all operation sequences of length D over the GenTS alphabe
         "'err') or tracks occupy >= 2 shards at some step; distinct by construction (TLC enumerates each once)")
 
 
-def consts(n, d, alpha="full", sim=0, ids=(1, 2)):
-    return {"Ids": set(ids), "ExtIds": {9}, "Classes": {0, 1}, "Cap": 2, "N": n, "D": d, "Alpha": alpha, "Sim": sim}
+def consts(n, d, alpha="full", sim=0, ids=(1, 2), pre=0):
+    return {"Ids": set(ids), "ExtIds": {9}, "Classes": {0, 1}, "Cap": 2, "N": n, "D": d, "Alpha": alpha, "Sim": sim, "Pre": pre}
 
 
-def gen_and_replay(chk, name, n, d, alpha, ids=(1, 2), simulate=None, sim=0, timeout=900, focus="c09"):
-    cfg = vlib.write_cfg(chk.workdir / f"{name}.cfg", consts(n, d, alpha, sim, ids), spec="GSpec", invariants=["Emit"])
+def gen_and_replay(chk, name, n, d, alpha, ids=(1, 2), simulate=None, sim=0, timeout=900, focus="c09", pre=0):
+    cfg = vlib.write_cfg(chk.workdir / f"{name}.cfg", consts(n, d, alpha, sim, ids, pre), spec="GSpec", invariants=["Emit"])
     r = vlib.tlc(S / "GenTS.tla", cfg, name, chk.workdir, workers=8, timeout=timeout, simulate=simulate,
                  seed=chk.seed if simulate else None)
     vlib.tlc_must_pass(r, name)
@@ -55,6 +55,9 @@ def run(chk):
     shard_counts = (1, 2, 3) if quick else (1, 2, 3, 4, 5)
     for n in shard_counts:
         gen_and_replay(chk, f"gen-d2-n{n}", n, 2, "full")
+    # every two-operation continuation of a store that already holds two tracks (successful owned merges, fetches of several ids)
+    for n in ((2,) if quick else (1, 2, 3)):
+        gen_and_replay(chk, f"gen-pre2-d2-n{n}", n, 4, "full", pre=1)
     if not quick:
         for n in (2, 3):
             gen_and_replay(chk, f"gen-d3-n{n}", n, 3, "small", ids=(1, 2, 3), timeout=1800)
